@@ -143,7 +143,6 @@ Variables E D : bytes -> bytes -> bytes.
 Variable modexp : Z -> Z -> Z -> Z.
 Variable is_prime : N -> bool.
 Variable split : N -> option (N * N).
-Variable foreign_ok : bytes -> bool.
 
 Hypothesis H_len : forall m, length (H m) = 20%nat.
 Hypothesis H_ok : forall m, okb (H m).
@@ -156,13 +155,13 @@ Hypothesis split_sound : forall n a b, split n = Some (a, b) -> a * b = n /\ 1 <
 Variable dr : draws.
 Hypothesis DR : draws_ok dr.
 Variable e : env.
-Hypothesis env_ok : forall h r, e h = Some r -> okb r.
+Hypothesis env_ok : forall h r, e h = Some (Reply r) -> okb r.
 
-Lemma np_request hist f : np (request foreign_ok hist f e).
+Lemma np_request hist f : np (request hist f e).
 Proof.
   unfold request. apply np_bind; [apply np_emit|]. intros _ _ _.
-  destruct (e (hist ++ [f])) as [r|]; [|apply np_stalled].
-  destruct (dec_reply r); [apply np_ret| |apply np_stalled]. destruct (foreign_ok r); [apply np_failed|apply np_stalled].
+  destruct (e (hist ++ [f])) as [[r| |]|]; try apply np_failed; [|apply np_stalled].
+  destruct (dec_reply r); [apply np_ret|apply np_failed|apply np_failed].
 Qed.
 
 Lemma fingerprint64_ok pk : exists f, fingerprint64 H pk = Ok f.
@@ -200,7 +199,7 @@ Proof. pose proof DR as (L & O & _). apply int128_raw; assumption. Qed.
 Lemma nn_m : int256_m nn = Ok (d_new_nonce dr).
 Proof. pose proof DR as (_ & _ & L & O & _). apply int256_raw; assumption. Qed.
 
-Lemma stage1_np pk : np (stage1 H modexp is_prime split foreign_ok pk dr e).
+Lemma stage1_np pk : np (stage1 H modexp is_prime split pk dr e).
 Proof.
   unfold stage1. fold nonce nn.
   apply np_bind. { apply np_of_outcome. unfold enc_req_pq. rewrite nonce_m. discriminate. }
@@ -312,7 +311,7 @@ Proof.
 Qed.
 
 Lemma stage2_np s : s1_nonce s = nonce -> s1_new s = nn -> s1_srv s < 256 ^ 16 ->
-  np (stage2 H E D modexp foreign_ok dr e s).
+  np (stage2 H E D modexp dr e s).
 Proof.
   intros Hn Hnn Hsrv. unfold stage2. rewrite Hn, Hnn. set (srv := s1_srv s) in *.
   apply np_bind; [apply np_request|]. intros e2 [o h] Hreq.
@@ -360,7 +359,7 @@ Proof.
   destruct (tl_bytes enc2) eqn:Ht; cbn [obind]; try discriminate. now apply tl_bytes_np in Ht.
 Qed.
 
-Lemma stage3_np s : np (stage3 H foreign_ok e s).
+Lemma stage3_np s : np (stage3 H e s).
 Proof.
   unfold stage3. apply np_bind; [apply np_request|]. intros e2 [o h] _. cbn [fst].
   destruct o; try apply np_failed.
@@ -370,7 +369,7 @@ Proof.
   intros _ kh _. apply np_bind; [apply np_emit|]. intros; apply np_ret.
 Qed.
 
-Theorem handshake_no_panic pk : np (handshake H E D modexp is_prime split foreign_ok pk dr e).
+Theorem handshake_no_panic pk : np (handshake H E D modexp is_prime split pk dr e).
 Proof.
   unfold handshake. apply np_bind; [apply stage1_np|]. intros e1 a Ha.
   apply stage1_go in Ha as (f1 & r1 & pqb & fps & fp & p & q & message & encrypted & _ & _ & He1 & Hd1 & _ & _ &
@@ -382,34 +381,34 @@ Qed.
 End NoPanic.
 
 Lemma handshake_go_success (H : bytes -> bytes) (E D : bytes -> bytes -> bytes) (modexp : Z -> Z -> Z -> Z)
-    (is_prime : N -> bool) (split : N -> option (N * N)) (foreign_ok : bytes -> bool) pk dr e eff f :
-  handshake H E D modexp is_prime split foreign_ok pk dr e = (eff, Go f) -> exists k h s, f = Success k h s.
+    (is_prime : N -> bool) (split : N -> option (N * N)) pk dr e eff f :
+  handshake H E D modexp is_prime split pk dr e = (eff, Go f) -> exists k h s, f = Success k h s.
 Proof.
   unfold handshake.
-  destruct (stage1 H modexp is_prime split foreign_ok pk dr e) as [e1 [a|st]]; cbn [wbind]; [|discriminate].
-  destruct (stage2 H E D modexp foreign_ok dr e a) as [e2 [b|st]]; cbn [wbind]; [|discriminate].
-  destruct (stage3 H foreign_ok e b) as [e3 r3] eqn:H3. intros [= <- ->].
+  destruct (stage1 H modexp is_prime split pk dr e) as [e1 [a|st]]; cbn [wbind]; [|discriminate].
+  destruct (stage2 H E D modexp dr e a) as [e2 [b|st]]; cbn [wbind]; [|discriminate].
+  destruct (stage3 H e b) as [e3 r3] eqn:H3. intros [= <- ->].
   apply stage3_spec in H3 as (kh & _ & _ & _ & _ & -> & _). eauto.
 Qed.
 
 (* the statement for Props/C07.v: the run - with or without a first request - never ends Panicked *)
 Theorem no_panic (H : bytes -> bytes) (E D : bytes -> bytes -> bytes) (modexp : Z -> Z -> Z -> Z)
-    (is_prime : N -> bool) (split : N -> option (N * N)) (foreign_ok : bytes -> bool) :
+    (is_prime : N -> bool) (split : N -> option (N * N)) :
   (forall m, length (H m) = 20%nat) -> (forall m, okb (H m)) ->
   (forall k b, length (E k b) = 16%nat) -> (forall k b, length (D k b) = 16%nat) ->
   (forall k b, okb k -> okb b -> okb (D k b)) ->
   (forall b e m, (0 <= e)%Z -> (0 < m)%Z -> modexp b e m = ((b ^ e) mod m)%Z) ->
   (forall n a b, split n = Some (a, b) -> a * b = n /\ 1 < a /\ a <= b) ->
-  forall pk dr (e : env), draws_ok dr -> (forall h r, e h = Some r -> okb r) ->
+  forall pk dr (e : env), draws_ok dr -> (forall h r, e h = Some (Reply r) -> okb r) ->
   forall sid msgid seq ack body eff fin,
-    connect_and_request H E D modexp is_prime split foreign_ok pk dr e sid msgid seq ack body = (eff, fin) ->
+    connect_and_request H E D modexp is_prime split pk dr e sid msgid seq ack body = (eff, fin) ->
     fin <> Stopped HPanicked.
 Proof.
   intros HL HO EL DL DO ME SS pk dr e DR EO sid msgid seq ack body eff fin.
-  pose proof (handshake_no_panic H E D modexp is_prime split foreign_ok HL HO EL DL DO ME SS dr DR e EO pk) as Hnp.
+  pose proof (handshake_no_panic H E D modexp is_prime split HL HO EL DL DO ME SS dr DR e EO pk) as Hnp.
   unfold connect_and_request, np in *.
-  destruct (handshake H E D modexp is_prime split foreign_ok pk dr e) as [eff0 [f|st]] eqn:Hh; cbn [outcome_of snd] in *.
-  - destruct (handshake_go_success H E D modexp is_prime split foreign_ok pk dr e eff0 f Hh) as (k & h & s & ->).
+  destruct (handshake H E D modexp is_prime split pk dr e) as [eff0 [f|st]] eqn:Hh; cbn [outcome_of snd] in *.
+  - destruct (handshake_go_success H E D modexp is_prime split pk dr e eff0 f Hh) as (k & h & s & ->).
     destruct (seal_client H (ige_encrypt E) k s sid msgid seq ack body); intros [= <- <-]; discriminate.
   - intros [= <- <-] Hx. injection Hx as ->. now apply Hnp.
 Qed.
